@@ -148,11 +148,28 @@ F-C12-1, F-C18-1).
 * C07 thorough (round-7 stream): the tilt-about-the-centre-of-curvature comparison lacked the allowance for
   paraboloids elsewhere in the lens that the other transformations have (finding F23: the conic quadratic cancels for
   nearly axial rays); a paraboloid two surfaces behind the tilted sphere moved by 3e-7 mm.  Same allowance (1e-6) now.
+* C14 thorough (round-7 stream): a coupled pickup/solve problem produced a nearly afocal meniscus whose image-distance
+  solve put the image 1.8e7 mm away; the `F2` operand, a difference of vertex positions, then depends on the last bit
+  of `z` and `_fun` returned values 8e-9 apart at the same point.  The two repeatability clauses carry the
+  conditioning allowance `1e-14 max|z| w_max^2` (1e-12 on ordinary lenses).
+* C09 thorough (round-7 stream): `image_solve()` on a mirror followed by a dummy asphere placed the image surface in
+  front of that asphere along the ray, so the last segment is travelled backwards; the library counts it negative,
+  the harness's geometric length positive (40 waves apart).  Samples with a backward segment are outside the
+  predicate's domain now (the model comparison, which follows the code's signed distance, still covers them), and so
+  are launches that leave the object towards -z (a stop behind a mirror whose entrance pupil lies behind the start
+  plane: the rays then meet the far sheet of the mirror - the actual cause of the 40 waves).
+* C15 thorough (round-7 stream), clause (b): on a set-up whose uncompensated merit (3e-11) lies below the
+  compensator's tolerance (1e-5) the recorded run left the compensator where it was and the re-run moved it by 6e-7;
+  "as good as the re-run" now carries the optimiser's tolerance (`+ 10 tol`) like the other optimiser comparisons.
 * C15 clause (c) (weighted compensation, added in round 7) raised two alarms while it was being built, both corrected
   before it was committed: a compensator with `tol = 1e-5` legitimately stops anywhere the merit changes by less than
   that (set-ups with weights now use `tol = 1e-10` and the threshold carries `10 tol`); and `LeastSquares` hands scipy
   the squared terms `(w d)^2` as residuals, i.e. minimises `sum (w d)^4`, whose minimiser is not the one of the
-  weighted sum of squares — the clause is applied to `method='generic'` only.
+  weighted sum of squares.  A third alarm (quick, seed 1: rms-spot operands, the library's optimiser stalls at 25% of the
+  uncompensated merit) showed that (c) demands more than C15 states — which optimum is reached is C14's subject —, so
+  (c) is now an observation in the evidence, and "the same compensation" of clause (b) is set up by the harness directly
+  on `CompensatorOptimizer` with the user's weights instead of through `Tolerancing.apply_compensators` (this is what
+  reports C15-10).
 * `hash(name)` seeded the rays of C06 (randomised per process): replaced by `zlib.crc32`.  C07 and C06 replays did not
   reproduce the recorded case (no work seed / configuration in the case): fixed, which the corpus builder exposed.
 
